@@ -542,6 +542,46 @@ func runC07(r *vk.Run) {
 			c.Sample("rewrite", map[string]any{"query": text, "first_record": ds.Recs[0]})
 		}
 	})
+	// labels that are numbers, booleans, nested values (what bare `| json` produces): a template reads the
+	// label's value as every other stage sees it -- a copy made by a template equals the label it copies
+	r.Phase("typedcopy", r.N(60, 3000), func(c *vk.Case) {
+		rng := c.Rng
+		vals := []string{"1234567.5", "0.00001234", "1e21", "1e-7", "123456789012345678", "9007199254740993", "0.25", "99.9", "-1234567.25", "1e6", "1000000", "true", "null", "\"str\"", "3.0", "1.50", "12345678.9"}
+		var recs []Rec
+		for i := 0; i < rng.Range(3, 8); i++ {
+			recs = append(recs, Rec{TS: logT0 + int64(i+1)*1e9, Line: fmt.Sprintf(`{"v":%s,"w":%s,"i":%d}`, vk.Pick(rng, vals), vk.Pick(rng, vals), i), Labels: map[string]string{"app": "x"}})
+		}
+		query := `{app="x"} | json | label_format cv="{{ .v }}", cw="{{ .w }}" | line_format "{{ .v }}|{{ .w }}" | drop msg`
+		res, err := evalQuery(&MemQuerier{Recs: recs, ErrAfter: -1}, query, logRangeParams(len(recs)+1))
+		c.Eval(1)
+		det := map[string]any{"query": query, "records": recs, "result": res}
+		if err != nil {
+			c.Fail("", query+": "+err.Error(), det)
+			return
+		}
+		n := 0
+		for _, st := range res.Streams {
+			for _, e := range st.Entries {
+				n++
+				if _, bad := st.Labels["__error__"]; bad {
+					c.Fail("", fmt.Sprintf("%s: record flagged %s", query, st.Labels["__error_details__"]), det)
+					return
+				}
+				if st.Labels["cv"] != st.Labels["v"] || st.Labels["cw"] != st.Labels["w"] || e.Line != st.Labels["v"]+"|"+st.Labels["w"] {
+					c.Fail("", fmt.Sprintf("%s: labels v=%q w=%q, the template copies read cv=%q cw=%q and the line %q", query, st.Labels["v"], st.Labels["w"], st.Labels["cv"], st.Labels["cw"], e.Line), det)
+					return
+				}
+				c.Count("typed_label_copies", 2)
+			}
+		}
+		if n != len(recs) {
+			c.Fail("", fmt.Sprintf("%s: %d of %d records returned", query, n, len(recs)), det)
+			return
+		}
+		c.Nontrivial(fmt.Sprintf("typedcopy|%d", c.Idx))
+	})
+	r.Require("typed_label_copies", 300)
+
 	// long runs: dozens of records in a row whose template fails at run time (a division by a label that is 0,
 	// a pattern taken from a label), then records for which it works. Each record is rewritten (or flagged)
 	// as it is when evaluated alone, however many failures came before it
